@@ -770,11 +770,162 @@ def tolerance_branch_clamps(ctx):
             nest = isinstance(v, ast.Call) and dotted(v.func) in ('min', 'max') and any(isinstance(x, ast.Call) and dotted(x.func) in ('min', 'max') for x in v.args)
             if ok or nest:
                 ctx.ok(f'{f.qualname}:tolerance branch returns a clamped value', r, src(v), f)
+            elif isinstance(v, ast.Call) and not (names_in(v) & _value_names(f)):
+                ctx.bad(f'{f.qualname}:tolerance branch returns a clamped value', r, f'the within-tolerance branch returns `{src(v)}`, which does not depend '
+                        'on the offered value at all: every accepted value is replaced by the same one', f)
             elif isinstance(v, ast.Call):
                 ctx.undecided(f'{f.qualname}:tolerance branch returns a clamped value', r, f'`{src(v)}` not a recognised clamp form', f)
             else:
                 ctx.bad(f'{f.qualname}:tolerance branch returns a clamped value', r, f'the within-tolerance branch returns `{src(v)}` unclamped: '
                         'a value just outside the limits is returned although it is not in the value set', f)
+
+
+def _value_names(f):
+    """the value parameter of a validation method and the locals computed from it (transitively)"""
+    a = f.node.args.args
+    names = {a[1].arg} if len(a) > 1 else set()
+    for _ in range(4):
+        for n in body_walk(f.node):
+            if isinstance(n, ast.Assign) and names_in(n.value) & names:
+                names |= {t.id for t in n.targets if isinstance(t, ast.Name)}
+    return names
+
+
+@rule('C01.R14', min_instances=4)
+def booleans_and_struct_members(ctx):
+    """BoolType.__call__ accepts exactly the members of (0, 1) (False == 0, True == 1) and returns a real bool; StructOf.__call__
+    / validate convert EVERY member that is given (not None) through its member type and store it under its key - a member
+    that is skipped keeps the unvalidated (or the previous) value inside a 'validated' struct"""
+    m = ctx.m
+    ci, res = _analyse_class(m, 'BoolType')
+    ma = res.get('__call__')
+    if ma is None:
+        raise AnchorMissing('BoolType.__call__ not found')
+    f, p = ma.f, ma.param
+    ctx.analysed(f)
+    members = None
+    for t in ma.cfg.nodes:
+        if t.kind == 'test':
+            for l, op, r in compare_ops(t.ast):
+                if op == 'in' and l == p:
+                    for x in ast.walk(t.ast):
+                        if isinstance(x, (ast.Tuple, ast.List, ast.Set)) and all(isinstance(e, ast.Constant) for e in x.elts):
+                            members = [e.value for e in x.elts]
+    if members is None:
+        ctx.undecided(f'{f.qualname}:accepted set is (0, 1)', f.node, 'no membership test of the value in a constant tuple', f)
+    else:
+        ok = len(members) == 2 and {bool(x) for x in members} == {False, True} and all(x in (0, 1) for x in members)
+        ctx.check(ok, f'{f.qualname}:accepted set is (0, 1)', f.node, f'value in {tuple(members)}',
+                  f'the accepted set is {tuple(members)}: one of the two booleans is refused (or a non-boolean is accepted)', f)
+    for r in [n for n in body_walk(f.node) if isinstance(n, ast.Return) and n.value is not None]:
+        v = r.value
+        ok = (isinstance(v, ast.Call) and dotted(v.func) == 'bool') or (isinstance(v, ast.Constant) and isinstance(v.value, bool)) or \
+            (isinstance(v, ast.Compare))
+        ctx.check(ok, f'{f.qualname}:returns a bool', r, src(v), f'`return {src(v)}` hands the offered 0 / 1 (an int) on instead of a bool: '
+                  'the validated value is not in canonical form (it exports as 1 instead of true)', f)
+    ci, res = _analyse_class(m, 'StructOf')
+    for meth, conv in (('__call__', None), ('validate', 'validate')):
+        ma = res.get(meth)
+        if ma is None:
+            raise AnchorMissing(f'StructOf.{meth} not found')
+        f, cfg = ma.f, ma.cfg
+        ctx.analysed(f)
+        loops = [n for n in body_walk(f.node) if isinstance(n, ast.For) and ma.param in names_in(n.iter) and isinstance(n.target, ast.Tuple) and len(n.target.elts) == 2]
+        if not loops:
+            ctx.undecided(f'{f.qualname}:every given member is converted', f.node, 'no loop over the items of the value', f)
+            continue
+        for loop in loops:
+            k, v = (src(e) for e in loop.target.elts)
+            stores = [n for n in walk_local(loop) if isinstance(n, ast.Assign) and isinstance(n.targets[0], ast.Subscript) and src(n.targets[0].slice) == k]
+            good = []
+            for st in stores:
+                c = st.value
+                fn = c.func if isinstance(c, ast.Call) else None
+                if conv is not None and isinstance(fn, ast.Attribute) and fn.attr == conv:
+                    fn = fn.value
+                elif conv is not None:
+                    fn = None
+                if fn is not None and src(fn) == f'self.members[{k}]' and len(c.args) >= 1 and src(c.args[0]) == v:
+                    good.append(st)
+            key = f'{f.qualname}:every given member is converted'
+            if not good:
+                ctx.bad(key, loop, f'no `result[{k}] = self.members[{k}]{"." + conv if conv else ""}({v})` in the loop over the members: members are taken over '
+                        'without validation (or dropped)', f)
+                continue
+            given = sides_with_fact(cfg, lambda a, tv: any(l == v and ((op == 'isnot' and r == 'None' and tv) or (op == 'is' and r == 'None' and not tv))
+                                                           for l, op, r in compare_ops(a)))
+            absent = sides_with_fact(cfg, lambda a, tv: any(l == v and ((op == 'is' and r == 'None' and tv) or (op == 'isnot' and r == 'None' and not tv))
+                                                            for l, op, r in compare_ops(a)))
+            for st in good:
+                ids = set(cfg.ids(st))
+                # every iteration with a value passes the store: from the loop head the next head / the loop exit is reached
+                # without the store only on the side where the member is None
+                head = cfg.ids(loop)
+                first = [b for h in head for b, lab in cfg.succ[h] if lab == 'T']
+                def is_none(a, tv):
+                    return any(l == v and ((op == 'is' and r == 'None' and tv) or (op == 'isnot' and r == 'None' and not tv)) for l, op, r in compare_ops(a))
+                ok = not (ids & absent) and paths_need_fact(cfg, [x for x in first if x not in ids], head, is_none, avoid=ids)
+                ctx.check(ok, key, st, f'`{src(st)}` for every member that is not None',
+                          f'`{src(st)}` is not executed for every given member (it lies on the side where the member is None, or an iteration with a '
+                          'value can skip it): the struct that is returned as validated holds unvalidated or stale members', f)
+
+
+@rule('C01.R15', min_instances=1)
+def enum_lookup_does_not_read_text_as_a_number(ctx):
+    """EnumType hands the RAW value to the member table (`self._enum[value]` / `self._enum(value)`); the lookup it reaches in
+    frappy/lib/enum.py must not turn a string into a number (`int(key)`) - a JSON string that is no member NAME would then be
+    taken as a member CODE"""
+    m = ctx.m
+    ci, res = _analyse_class(m, 'EnumType')
+    ecls = m.classes.get('frappy.lib.enum.Enum')
+    if ecls is None:
+        raise AnchorMissing('frappy.lib.enum.Enum not found')
+    n = 0
+    for meth in ('__call__', 'validate', 'import_value'):
+        ma = res.get(meth)
+        if ma is None or not ma.param:
+            continue
+        f, p = ma.f, ma.param
+        for node in body_walk(f.node):
+            callee = None
+            if isinstance(node, ast.Call) and src(node.func) == 'self._enum' and node.args and p in names_in(node.args[0]):
+                callee = '__call__'
+            elif isinstance(node, ast.Subscript) and src(node.value) == 'self._enum' and p in names_in(node.slice):
+                callee = '__getitem__'
+            if callee is None:
+                continue
+            n += 1
+            ctx.analysed(f)
+            todo, seen = [callee], set()
+            verdict = True
+            while todo:
+                name = todo.pop()
+                if name in seen:
+                    continue
+                seen.add(name)
+                g = ecls.methods.get(name)
+                if g is None:
+                    continue        # dict's own lookup: exact key match
+                ctx.analysed(g)
+                key = g.node.args.args[1].arg if len(g.node.args.args) > 1 else None
+                gcfg = CFG(g.node, m, g.module)
+                not_text = sides_with_fact(gcfg, lambda a, tv: isinstance(a, ast.Call) and dotted(a.func) == 'isinstance' and len(a.args) == 2 and
+                                           src(a.args[0]) == key and (('str' in names_in(a.args[1])) != tv))
+                for c in calls_in(g.node):
+                    if dotted(c.func) in ('int', 'float') and c.args and key in names_in(c.args[0]) and not set(gcfg.node_of(c)) <= not_text:
+                        verdict = False
+                        ctx.bad(f'{f.qualname}:member lookup does not read text as a number', c,
+                                f'`{src(node)}` reaches {g.qualname}, where `{src(c)}` converts the key although it may be a string: a JSON string '
+                                'such as "5" that is no member name is accepted as the member with code 5', g)
+                    if isinstance(c.func, ast.Attribute) and dotted(c.func.value) == 'self' and c.func.attr in ecls.methods:
+                        todo.append(c.func.attr)
+                for sub in body_walk(g.node):
+                    if isinstance(sub, ast.Subscript) and src(sub.value) == 'self':
+                        todo.append('__getitem__')
+            if verdict:
+                ctx.ok(f'{f.qualname}:member lookup does not read text as a number', node, f'`{src(node)}`: exact lookup by name or code', f)
+    if not n:
+        raise AnchorMissing('lookup of the raw value in self._enum not found in EnumType')
 
 
 @rule('C01.R3b', min_instances=1)
@@ -1062,8 +1213,16 @@ def _limit_comparisons(test, props):
                     kind = 'accepting' if lim_left else 'violating'      # L <= X accepts ; X < L violates
                 else:
                     kind = 'violating' if lim_left else 'accepting'      # U < X violates ; X <= U accepts
-                out.append((prop, kind, op == '<'))
+                out.append(_LC((prop, kind, op == '<'), (l if lim_left else r) == me))
     return out
+
+
+class _LC(tuple):
+    """(prop, kind, strict) with .exact = the limit is compared as it is (no tolerance arithmetic around it)"""
+    def __new__(cls, t, exact):
+        o = super().__new__(cls, t)
+        o.exact = exact
+        return o
 
 
 @rule('C01.R11', min_instances=12)
@@ -1103,8 +1262,17 @@ def refusing_side_of_every_limit_test_raises(ctx):
                 ctx.check(_side_never_completes(cfg, t.id, label), key, t.ast, f'`{src(t.ast)}`: the {label} side ends in a raise',
                           f'`{src(t.ast)}`: on the side where the limit is violated the method goes on and returns normally - '
                           f'a value outside the declared {names} is accepted', ma.f)
-                for p, k, strict in cmps:
-                    if p in DISCRETE:
+                # `self.maxlen is not None and len(value) > self.maxlen`: a None-guard of the limit has to let the comparison
+                # through when there IS a limit (`self.maxlen is None and ...` never compares - or fails with a TypeError)
+                if isinstance(t.ast, ast.BoolOp) and isinstance(t.ast.op, ast.And):
+                    for v in t.ast.values:
+                        for l, op, r in compare_ops(v):
+                            if op == 'is' and r == 'None' and any(l == f'self.{p}' for p, k, s in cmps):
+                                ctx.bad(f'{ma.f.qualname}:None-guard of {l} lets the comparison through', t.ast,
+                                        f'`{src(t.ast)}` compares with {l} only when it is None: the declared limit is never enforced', ma.f)
+                for lc in cmps:
+                    p, k, strict = lc
+                    if p in DISCRETE or (lc.exact and cname == 'IntRange'):
                         right = strict if k == 'violating' else not strict
                         ctx.check(right, f'{ma.f.qualname}:{p} is inclusive', t.ast, f'`{src(t.ast)}`',
                                   f'`{src(t.ast)}` has the wrong strictness for the inclusive limit {p}: a value of exactly the declared length is refused '
